@@ -313,6 +313,8 @@ TraceNext ==
        [] E.ev = "reg.waited"       -> TRegWaited
        [] E.ev = "socket.check"     -> TSocketCheck
        [] E.ev = "crash"            -> Reject("C07-panic", <<E.text>>)
+       \* not replayed (the runs before wedged the code under test four times): on to the next run
+       [] E.ev = "skipped"          -> l' = E.nb /\ UNCHANGED <<rvars, bad, stats, done, upd, vetoer, lim>>
        [] E.ev = "End"              -> TEnd
        [] OTHER                     -> Skip   \* call, started, leaving, start.failed: no specification step
 
